@@ -26,6 +26,7 @@ type Case struct {
 	S     string // string under test
 	Cut   int    // how many bytes to cut from the encoded string (terminator test)
 	Extra hx.Hex // data bytes carried in the encoded structures
+	Long  int    // > 0: the string under test is S repeated until it has at least Long bytes of UTF-8 (long strings, rebuilt when the case runs)
 }
 
 func genCase(t *rapid.T) Case {
@@ -36,7 +37,12 @@ func genCase(t *rapid.T) Case {
 		d := byte(rapid.IntRange(1, 255).Draw(t, "d"))
 		b[i] ^= d
 	}
+	long := 0
+	if gen.Chance(t, "longstring", 1, 4000) {
+		long = rapid.SampledFrom([]int{1<<16 + 1, 1<<20 + 1, 16<<20 + 1, 16<<20 + 1, 33 << 20}).Draw(t, "longbytes")
+	}
 	return Case{
+		Long:  long,
 		A:     a.BE(),
 		B:     b,
 		S:     gen.UnicodeString(4096).Draw(t, "s"),
@@ -63,6 +69,14 @@ func refUTF16(s string) []byte {
 }
 
 func checkCase(c Case) error {
+	if c.Long > 0 {
+		unit := c.S
+		if unit == "" {
+			unit = "long string "
+		}
+		c.S = strings.Repeat(unit, c.Long/len(unit)+1)
+		hx.Class(fmt.Sprintf("string_of_%d_MiB", len(c.S)>>20))
+	}
 	if len(c.A) != 16 || len(c.B) != 16 {
 		return fmt.Errorf("bad case: GUIDs must be 16 bytes")
 	}
@@ -99,7 +113,9 @@ func checkCase(c Case) error {
 	if leading || nonASCII {
 		hx.NonTrivial(c.A, c.B, []byte(c.S))
 		if hx.WantSample() {
-			hx.Sample(map[string]any{"guid": a.Text(), "other": b.Text(), "string": c.S})
+			if len(c.S) < 2000 {
+				hx.Sample(map[string]any{"guid": a.Text(), "other": b.Text(), "string": c.S})
+			}
 		}
 	}
 
